@@ -24,6 +24,7 @@ ExprCalls(r) ==
     [] r.k = "prop2" -> <<C0("prop2")>>
     [] r.k = "prop3" -> <<C0("prop3")>>
     [] r.k = "quant" -> <<C0("exists_quantifier")>>
+    [] r.k = "axiom" -> <<CT("load", 0, Prf(r.t), Bot)>>
     [] r.k = "mp"  -> ExprCalls(r.a) \o ExprCalls(r.b) \o <<CT("modus_ponens", 0, Conc(r.a).c, Conc(r.b).c)>>
     [] r.k = "gen" -> ExprCalls(r.a) \o <<CT("exists_generalization", r.x, Conc(r.a).c, Bot)>>
     [] r.k \in {"dyn", "inst"} ->
@@ -48,5 +49,40 @@ CompileClause(r) ==
   ELSE LET f == FoldOK(G0, M0, ExprCalls(r)) IN
        IF ~f.ok THEN "compile-not-accepted"
        ELSE IF f.ms.stack # <<Prf(Expand(e.c))>> THEN "compile-proves-other"
+       ELSE ""
+
+(* ----------------------------------------------------------------------- *)
+(* A whole module  m = [imports : Seq(module), axioms : Seq(term),          *)
+(* proofs : Seq(expression)]  (its claims are the conclusions of its proof *)
+(* expressions; an imported module contributes its theory - recursively,   *)
+(* imports first, once per import edge - but not its claims): the calls of *)
+(* execute_gamma_phase / execute_claims_phase / execute_proofs_phase, the  *)
+(* three byte files the serializer writes for them, and the theorem that   *)
+(* the machine verifies those files.                                       *)
+PatCalls0(p) == PatCalls(p, [calls |-> <<>>, mem |-> <<>>], {}).calls
+RECURSIVE AxiomCalls(_, _), ClaimCalls(_, _), ProofCalls(_, _)
+AxiomCalls(as, k) == IF k > Len(as) THEN <<>> ELSE PatCalls0(as[k]) \o <<CT("publish_axiom", 0, as[k], Bot)>> \o AxiomCalls(as, k + 1)
+ClaimCalls(cs, k) == IF k < 1 THEN <<>> ELSE PatCalls0(cs[k]) \o <<CT("publish_claim", 0, cs[k], Bot)>> \o ClaimCalls(cs, k - 1)   \* reversed
+ProofCalls(ps, k) == IF k > Len(ps) THEN <<>> ELSE ExprCalls(ps[k]) \o <<CT("publish_proof", 0, Conc(ps[k]).c, Bot)>> \o ProofCalls(ps, k + 1)
+ClaimsOf(m) == [k \in 1..Len(m.proofs) |-> Conc(m.proofs[k]).c]
+RECURSIVE GammaCalls(_), ImportCalls(_, _)
+ImportCalls(ms, k) == IF k > Len(ms) THEN <<>> ELSE GammaCalls(ms[k]) \o ImportCalls(ms, k + 1)
+GammaCalls(m) == ImportCalls(m.imports, 1) \o AxiomCalls(m.axioms, 1)
+ModuleCalls(m) == GammaCalls(m) \o <<C0("into_claim_phase")>> \o ClaimCalls(ClaimsOf(m), Len(m.proofs))
+                  \o <<C0("into_proof_phase")>> \o ProofCalls(m.proofs, 1)
+\* fold the tracker/serializer over the calls, appending the bytes of every call to the file of the phase it ran in
+RECURSIVE FoldFiles(_, _, _)
+FoldFiles(g, cs, fl) ==
+  IF cs = <<>> THEN [ok |-> TRUE, g |-> g, files |-> fl]
+  ELSE LET r == GStep(g, Head(cs)) IN
+       IF ~r.ok THEN [ok |-> FALSE, g |-> g, files |-> fl]
+       ELSE FoldFiles(r.g, Tail(cs), [fl EXCEPT ![g.phase] = @ \o r.bytes])
+ModuleFiles(m) == FoldFiles(GInit(ClaimsOf(m)), ModuleCalls(m), [gamma |-> <<>>, claim |-> <<>>, proof |-> <<>>])
+ModuleApplicable(m) == \A k \in 1..Len(m.proofs) : LET e == Conc(m.proofs[k]) IN e.ok /\ e.run /\ ~e.und
+ModuleClause(m) ==
+  IF ~ModuleApplicable(m) THEN ""
+  ELSE LET f == ModuleFiles(m) IN
+       IF ~f.ok THEN "module-tracker-refuses"
+       ELSE IF ~Verify(f.files.gamma, f.files.claim, f.files.proof).ok THEN "module-not-verified"
        ELSE ""
 =============================================================================
